@@ -171,7 +171,9 @@ static void other_thread_call(void)
 	r = event_deferred_cb_schedule_(base, &DCB);
 	VP_ASSERT(r == 1, "deferred callback newly scheduled");
 	needed = 1;
+#if C09_THREAD == 2
 	VP_ASSERT(vp_notify_calls > n0 || pend0, "C09: lost wake-up: deferred callback scheduled from another thread, loop not notified");
+#endif
 	n0 = vp_notify_calls; pend0 = base->is_notify_pending;
 	r = event_deferred_cb_schedule_(base, &DCB);       /* already scheduled: nothing changes */
 	VP_ASSERT(r == 0, "deferred callback already scheduled");
@@ -363,7 +365,7 @@ static void setup(int e_state)
 	event_base_add_virtual_(base);
 #endif
 #if C09_BASE != 2
-	if (e_state >= 1) { r = event_add(&E, C09_BASE == 1 ? NULL : &t2); __CPROVER_assume(r == 0); }
+	if (e_state >= 1) { r = event_add(&E, (C09_BASE == 1 && C09_KIND != K_TIMER) ? NULL : &t2); __CPROVER_assume(r == 0); }
 	if (e_state == 2) event_active(&E, (C09_KIND == K_SIG) ? EV_SIGNAL : EV_READ, 1);
 #endif
 	VP_ASSERT_NO_LOCKS("setup");
